@@ -247,7 +247,7 @@ PROPS['C05'] = {
     ],
 }
 PROPS['C01'] = {
-    'units': ['solver', 'print', 'unify', 'functions', 'solver_ext', 'solver_kb', 'rename', 'solutions_ids', 'compare', 'listops', 'append'],
+    'units': ['solver', 'print', 'unify', 'functions', 'solver_sld', 'solver_ext', 'solver_kb', 'rename', 'solutions_ids', 'compare', 'listops', 'append'],
     'functions': SOLVER_FNS + ['solutions.rs::format_solution'],
     'oracles': {'*': 'c01_prog', '#solve_all': 'c01_solve_all',
                 # the built-in predicates share their code with the reference interpreter of c01_prog: their own oracles give the witnesses
@@ -263,6 +263,10 @@ PROPS['C01'] = {
         'so nothing an abandoned alternative has bound can appear in a later answer; an exhausted node yields nothing more (C05); a flagged node yields nothing more (C02)',
         'PROVED on unify / unify_sfunction (#no_new_ids): unification introduces no variable id of its own - whatever bounds the ids of the two terms and of the prior bindings bounds those of the result; '
         'the clause loop rewinds the id counter only after the head of the clause just fetched has failed to unify (#ids_released_only_after_failed_unification). That ids given back are then referenced by nothing is PROVED since 8.36 (C10, unit solver_ids: the id invariant of the search)',
+        'PROVED since 8.41 (unit solver_sld, overlay contracts contracts/*+sld.vc on the verbatim bodies of next_solution, next_solution_and / _or / _bip and the node constructors): SOUNDNESS with respect to resolution - every answer a solution node gives is a computed answer of its goal, '
+        'from the bindings the node was made with, over its knowledge base (#answer_is_derivable). The reference semantics is the relation `entails(kb, goal, s0, s1)` given by its inference rules, each an axiom of spec/sld_heap.rs: a renamed copy of a clause whose head unifies with the goal (fact: the unifier; rule: an answer of the body under the unifier), '
+        'conjunction (the first goal, then the remaining goals under its answer), disjunction (the first alternative or the remaining ones, under the same bindings), time(G) as G, the built-in predicates as the functions they are, `=` as unification. What the links of a node stand for is the heap invariant heap_sld (#sld_kept, #sld_inv, #clause_step). '
+        'Two simplifications, stated: not(G) and `!` count as true in the semantics (they only remove answers: C03, C02). The primitive steps are functions of their arguments (T10: unify_res, bip_res; `variant` = what get_rule returns). NOT proved: the converse (every answer of resolution is produced, once, in order) - bounded (c01_prog)',
         'PROVED since 8.39 (unit solver_kb, overlay contracts contracts/*+kbx.vc): the clause loop asks the knowledge base only for clauses that are there - every node of a complex goal is given the number of clauses of its predicate '
         '(count_rules: that number, or 0 while a query is being stopped; proved in unit rename), Goal::key and Unifiable::key build the same key (both proved against one wrapped format string), so at get_rule the predicate exists and the index is below the number of its clauses '
         '(#pre_exists, #pre_index PROVED at the call site; #clause_is_there); and a call that reports no (more) answer without a cut has gone through the clauses of its predicate to the end - the number its node was given is 0 or exactly the number of clauses stored (#every_clause_tried: no clause is skipped). Trusted for this (T2): a HashMap look-up with a &str key depends on the text of the key only, a key has one value, a key with a value is in the map (axiom_kb_lookup, axiom_kb_one_value)',
@@ -409,6 +413,6 @@ TRUSTED_TEXT = {
     'T4': 'extractor rewrite rules R1-R17 (syntactic; counts per rule reported in coverage.rewrites)',
     'T5': 'Verus 0.2026.09.13 + its Z3; rustc front end',
     'T9': 'the id counter LOGIC_VAR_ID (static mut, outside Verus) as ghost state `ids` passed along by the functions that touch it (spec/counter_state.rs): changed only by next_id (+1, returns the new value), set_var_id, clear_id / start_query',
-    'T10': 'C20 only: parse_term, make_term, check_arithmetic_infix and get_left_and_right are FUNCTIONS of their arguments (no global state, no interior mutability): assumed where they are callees, through uninterpreted spec functions alone / mk / arith_infix / operands (spec/contexts.rs)',
+    'T10': 'functions of their arguments (no global state, no interior mutability), assumed where they are callees through uninterpreted spec functions - C01 (unit solver_sld): unify (unify_res), the ten built-in predicates (bip_res), get_rule up to the id counter (variant); C20: parse_term, make_term, check_arithmetic_infix and get_left_and_right are FUNCTIONS of their arguments (no global state, no interior mutability): assumed where they are callees, through uninterpreted spec functions alone / mk / arith_infix / operands (spec/contexts.rs)',
     'T8': 'the node heap (spec/solver.rs): Rc<RefCell<SolutionNode>> accesses as accessor calls on one ghost heap passed along (R15); Rc::clone keeps identity; a field access through a RefMut touches that field of that node only; R17: in set_no_backtracking `self` is the node whose RefMut the caller holds, `as_ptr()` a handle on the node pointed to, `(*raw).F` an access to field F of that node (no lock asked: unsafe)',
 }
